@@ -6,6 +6,7 @@ toolchain go1.25.0
 
 require (
 	golang.org/x/image v0.20.0
+	github.com/coder/websocket v1.8.12
 	oss.terrastruct.com/d2 v0.0.0
 	oss.terrastruct.com/util-go v0.0.0-20250213174338-243d8661088a
 )
@@ -15,7 +16,6 @@ require (
 	github.com/alecthomas/chroma/v2 v2.14.0 // indirect
 	github.com/andybalholm/brotli v1.2.0 // indirect
 	github.com/andybalholm/cascadia v1.3.2 // indirect
-	github.com/coder/websocket v1.8.12 // indirect
 	github.com/deckarep/golang-set/v2 v2.7.0 // indirect
 	github.com/dlclark/regexp2 v1.11.4 // indirect
 	github.com/dop251/goja v0.0.0-20240927123429-241b342198c2 // indirect
